@@ -411,6 +411,31 @@ def apply_edit(model, edit):
         feat = model.get_feature_by_name(edit["f"])
         attr = [a for a in feat.attributes if a.name == edit["a"]][0]
         attr.set_default_value(_copy_value(edit["v"]))
+    elif kind == "swap_names":
+        fa = model.get_feature_by_name(edit["a"])
+        fb = model.get_feature_by_name(edit["b"])
+        fa.name, fb.name = edit["b"], edit["a"]
+    elif kind == "flip_ctc":
+        # requires <-> excludes between the same two operands; a model read back from a file may
+        # hold 'A excludes B' as 'A implies not B' (UVL, FeatureIDE), so work on the meaning
+        root = model.ctcs[edit["i"]].ast.root
+        negated = root.right is not None and isinstance(root.right.data, ASTOperation) and \
+            root.right.data == ASTOperation.NOT
+        if edit["op"] == "REQUIRES":
+            if root.data == ASTOperation.EXCLUDES:
+                root.data = ASTOperation.REQUIRES
+            elif negated:
+                root.right = root.right.left
+        else:
+            if root.data == ASTOperation.REQUIRES and not negated:
+                root.data = ASTOperation.EXCLUDES
+            elif root.data in (ASTOperation.IMPLIES, ASTOperation.REQUIRES) and not negated:
+                root.right = Node(ASTOperation.NOT, root.right)
+    elif kind == "recard":
+        feat = model.get_feature_by_name(edit["f"])
+        rel = [r for r in feat.relations
+               if sorted(c.name for c in r.children) == edit["ch"]][0]
+        rel.card_min, rel.card_max = edit["min"], edit["max"]
     elif kind == "regroup":
         feat = model.get_feature_by_name(edit["f"])
         rel = [r for r in feat.relations
